@@ -7,7 +7,7 @@ to EVENT_LOG: the log is the emulator's observed gate stream.
 from jaqalpaq.core import GateDefinition, Parameter, ParamType
 from jaqalpaq.core.gatedef import BusyGateDefinition, add_idle_gates
 
-from .gateset_sig import RAW, GATES, unitary, nq  # noqa: F401
+from .gateset_sig import RAW, GATES, VARIANTS, unitary, nq  # noqa: F401
 
 KIND = {"q": ParamType.QUBIT, "f": ParamType.FLOAT, "i": ParamType.INT}
 
@@ -23,12 +23,12 @@ def _logged(name, fn):
     return ideal_unitary
 
 
-def make(idle=True, logged=True):
+def make(idle=True, logged=True, variant="A"):
     g = {
         "prepare_all": BusyGateDefinition("prepare_all"),
         "measure_all": BusyGateDefinition("measure_all"),
     }
-    for name, (params, fn) in RAW.items():
+    for name, (params, fn) in VARIANTS[variant].items():
         u = None if fn is None else (_logged(name, fn) if logged else fn)
         g[name] = GateDefinition(name, [Parameter(n, KIND[k]) for n, k in params], ideal_unitary=u)
     if idle:
